@@ -112,6 +112,9 @@ def cli_cases(ctx):
             ovs.append(ov)
         cmd = ('echo "E_TASK=${E_TASK-UNSET}|E_S=${E_S-UNSET}|VV=${VV-UNSET}|V_TASK={{.V_TASK}}|VS={{index . \"VS\"}}|PWD=$(pwd)" > "$PROJ/u.{{index . \".Stage.Name\"}}"')
         doc = {"tasks": {"t": {"command": [cmd], "env": {"E_TASK": "task"}, "variables": {"V_TASK": "tvar"}, "variations": [{"VV": "{{.V_TASK}}"}]}}, "pipelines": {"p": stages}}
+        if rng.random() < 0.5:          # the task runs in a NAMED context: one object shared by all its uses in the process
+            doc["contexts"] = {"cx": {"env": {"CXE": "1"}}}
+            doc["tasks"]["t"]["context"] = "cx"
         order = rng.choice([["p", "t"], ["t", "p", "t"]])
         jobs.append({"id": len(jobs), "files": {"cfg.json": clilib.jcfg(doc)}, "argv": ["-c", "cfg.json", "--raw"] + order, "keep": ["u.s%d" % k for k in range(n)] + ["u.<no value>"],
                      "ovs": ovs, "kind": "cli", "order": order})
